@@ -1,28 +1,50 @@
 #!/venv/bin/python
 """maintenance helper: run all quick checks against behaviour-preserving refactoring patches; any non-zero exit is a
-false alarm (exit 1) or a brittle anchor (exit 2) of the machinery.  usage: tools_refactor_eval.py <dir with P*.diff> ..."""
-import glob, os, subprocess, sys
-def sh(c): return subprocess.run(c, shell=True, capture_output=True, text=True)
-bad = 0
-for d in sys.argv[1:]:
-    for patch in sorted(glob.glob(os.path.join(d, 'P*.diff'))):
-        assert sh('git -C /repo status --porcelain').stdout.strip() == '', 'repo not clean'
-        r = sh(f'git -C /repo apply {patch}')
+false alarm (exit 1) or a brittle anchor (exit 2) of the machinery.  Every patch is applied to its own scratch export
+of /repo's HEAD (git archive, under $TMPDIR, removed afterwards), 8 in parallel; the pinned suite runs there too.
+usage: tools_refactor_eval.py [--nosuite] <dir with P*.diff> ..."""
+import glob, os, shutil, subprocess, sys, tempfile
+from concurrent.futures import ThreadPoolExecutor
+
+
+def sh(c, **kw):
+    return subprocess.run(c, shell=True, capture_output=True, text=True, **kw)
+
+
+args = sys.argv[1:]
+nosuite = '--nosuite' in args
+dirs = [a for a in args if a != '--nosuite']
+patches = [p for d in dirs for p in sorted(glob.glob(os.path.join(d, '*.diff')))]
+
+
+def one(patch):
+    base = tempfile.mkdtemp(prefix='refac-eval-')
+    try:
+        sh(f'git -C /repo archive HEAD | tar -x -C {base}')
+        r = sh(f'patch -p1 -s -f --no-backup-if-mismatch -i {patch}', cwd=base)
         if r.returncode:
-            print('APPLY FAILED', patch, r.stderr.strip()[:200]); continue
-        try:
-            suite = sh('/verif/tools_run_suite.sh | tail -1').stdout.strip()
-            base = '301 passed' in suite and '7 failed' in suite and '1 error' in suite
-            res = []
-            for i in range(1, 21):
-                p = f'C{i:02d}'
-                c = sh(f'VERIF_NO_EVIDENCE=1 /venv/bin/python /verif/check {p}')
-                if c.returncode != 0:
-                    lines = [l.strip()[:230] for l in c.stdout.splitlines() if l.startswith('  C') or l.startswith('ANALYSIS')]
-                    res.append((p, c.returncode, lines[:3]))
-        finally:
-            sh('git -C /repo checkout -- .')
-        print(os.path.basename(d), os.path.basename(patch), 'suite-baseline' if base else 'SUITE CHANGED: ' + suite, 'CLEAN' if not res else 'ALARMS')
+            return patch, 'APPLY FAILED ' + r.stdout[:200], []
+        suite = 'not run'
+        if not nosuite:
+            suite = sh(f'/verif/tools_run_suite.sh {base} | tail -1').stdout.strip()
+            suite = 'suite-baseline' if ('301 passed' in suite and '7 failed' in suite and '1 error' in suite) else 'SUITE CHANGED: ' + suite
+        res = []
+        for i in range(1, 21):
+            p = f'C{i:02d}'
+            c = sh(f'VERIF_REPO={base} VERIF_NO_EVIDENCE=1 VERIF_NO_SELFTEST=1 /venv/bin/python /verif/check {p}')
+            if c.returncode != 0:
+                lines = [l.strip()[:230] for l in c.stdout.splitlines() if l.startswith('  C') or l.startswith('ANALYSIS')]
+                res.append((p, c.returncode, lines[:3]))
+        return patch, suite, res
+    finally:
+        shutil.rmtree(base, ignore_errors=True)
+
+
+bad = 0
+with ThreadPoolExecutor(max_workers=8) as ex:
+    for patch, suite, res in ex.map(one, patches):
+        print(os.path.basename(os.path.dirname(os.path.dirname(patch))) if patch.endswith('.diff') and '/out/' in patch else '', os.path.basename(patch), suite,
+              'CLEAN' if not res else 'ALARMS')
         for x in res:
             bad += 1
             print('    ', x)
